@@ -35,7 +35,8 @@ var propSpecs = map[string]PropSpec{
 		NotCovered: []string{"ApplySlice, CopyFrom and the whole-array helpers (AddTo, ApplyFunc1, Scale) beyond rank 3 (BOUNDED: the mixed-radix successor lemma is proved per rank for ranks 1-3; extents, strides and steps are symbolic)", "Reshape of a view whose new shape has exactly one element (the row-major clause is stated for more than one element)", "whole-array helpers on two arrays that share element storage (precondition: the slices their Unroll() return are different objects)", "the bridge between the Go back-end's header and the row-major interface view for the array built by ArrayFromSlice (assumed contract)", "views with an extent of 0 (extents >= 1 are a precondition of the bulk contracts)"}},
 	"C03": {ID: "C03", Level: "proof", Patterns: []string{"./data/...", "./util/..."},
 		NotCovered: []string{"ApplySlice/CopyFrom beyond rank 3 (BOUNDED)", "Reshape of a C-backed view to a single-element shape (the row-major clauses are stated for more than one element)", "libopenwater.RunSingleModel (cgo entry point)"}},
-	"C04": {ID: "C04", Level: "proof", Patterns: modelPkgs},
+	"C04": {ID: "C04", Level: "proof", Patterns: modelPkgs,
+		NotCovered: []string{"InitialiseStates / FindDimensions / Description of the wrappers (the claim is about Run and ApplyParameters)", "callers of Run other than the JSON runner (cmd/ow-sim, libopenwater)", "the step from the proved wiring of every call of the kernel (inputs, states, parameters, outputs of cell i) to equality with a single-cell run uses the determinism of the kernels (C14)"}},
 	"C05": {ID: "C05", Level: "other", Patterns: modelPkgs,
 		Explanation: "Partial: the goroutine-per-cell execution inside every generated Run is decided by sequential contracts plus the disjoint-footprint argument for fork/join parallelism: every write of cell i's goroutine body goes to cells of states[i,.] / outputs[i,.,.] or to memory allocated by that body (SMT-discharged frame obligations), everything captured from Run is read-only in the body, inputs and parameters are never written, and Run receives once per spawned goroutine before returning (structural join check). Under these no two goroutines have conflicting accesses, so every interleaving equals the sequential cell-by-cell order; the step from disjoint footprints to race freedom is a standard meta-theorem that is not mechanised (A-SEQ). The ow-sim half (goroutine per model, asynchronous writer) is not applicable: package main of cmd/ow-sim cannot be loaded or run here and the claim is about interleavings of a protocol.",
 		NotCovered: []string{"goroutine-per-model execution and the asynchronous writer in cmd/ow-sim", "the Go memory model beyond absence of conflicting accesses"}},
